@@ -88,14 +88,14 @@ def check(rep, an, tier):
     # ---- system_capture / system_relative_capture / relative_capture / apply_linear_transform
     for Kk in ("vec", "mat", "scalar"):
         for bl in ("vec", "scalar"):
-            for xr in ("vector", "batch"):
+            for xr in ("vector", "batch", "stack of batches"):
                 fields = estimator_fields(K=Kk if Kk != "scalar" else None, baseline=bl if bl == "vec" else None)
                 FR = rel_axis(Kk)
-                X = arr("X", S("SRC") if xr == "vector" else S("N", "SRC"), U_INT)
+                X = arr("X", {"vector": S("SRC"), "batch": S("N", "SRC"), "stack of batches": S("Bt", "N", "SRC")}[xr], U_INT)
                 cfgs = cfgname(dict(K=Kk, baseline=bl, X=xr))
                 res = an.run(f"{EST}.system_capture", kws=dict(X=X), self_fields=fields, config=cfgs)
                 v = res.value.flat()
-                want = S("F") if xr == "vector" else S("N", "F")
+                want = {"vector": S("F"), "batch": S("N", "F"), "stack of batches": S("Bt", "N", "F")}[xr]
                 rep.check("R-SHAPE", "system_capture contracts the source axes", None if v.shape is None else v.shape == want,
                           where=res.fn.loc(), construct="X @ self.A.T", entry="ReceptorEstimator.system_capture", config=cfgs,
                           msg=f"declared {want}, computed {v.shape}")
@@ -113,7 +113,7 @@ def check(rep, an, tier):
                 res = an.run(f"{EST}.system_relative_capture", kws=dict(X=X), self_fields=fields, config=cfgs)
                 entry = "ReceptorEstimator.system_relative_capture"
                 v = res.value.flat()
-                want = S(FR) if xr == "vector" else S("N", FR)
+                want = {"vector": S(FR), "batch": S("N", FR), "stack of batches": S("Bt", "N", FR)}[xr]
                 rep.check("R-SHAPE", "relative capture axes", None if v.shape is None else v.shape == want, where=res.fn.loc(),
                           construct="return of system_relative_capture", entry=entry, config=cfgs, msg=f"declared {want}, computed {v.shape}")
                 rep.check("R-QTY", "relative capture = K·(Q + baseline): unit [ρ], TOTAL", None if v.unit is None else (v.unit == U_REL and v.frame == "TOTAL"),
